@@ -143,7 +143,13 @@ inductive Ev : Streams → Streams → Prop
       Ev s (match s.qPop .pendingOpen with
             | (s', some id) => s'.incNumSendStreams id
             | (s', none) => s')
-  | ppAct {s : Streams} (pid pushed : Nat) : s.store.findKey? pid = some pushed → Ev s (ppActivate s pushed)
+  /-- `send_push_promise`: a PUSH_PROMISE frame for a locally initiated (promised) id is queued -/
+  | queuePP {s : Streams} (k pk pid : Nat) (fields : List Hpack.Field) : s.counts.isLocalInit pid = true →
+      Ev s (s.modStream k fun st => { st with pendingSend := st.pendingSend ++ [.pushPromise pk pid fields] })
+  /-- `pop_frame`'s PUSH_PROMISE arm: the frame leaves the parent's queue, the promised stream is activated -/
+  | ppAct {s : Streams} (id pk pid : Nat) (fields : List Hpack.Field) (rest : List SFrame) (pushed : Nat) :
+      (s.stream id).pendingSend = .pushPromise pk pid fields :: rest → s.store.findKey? pid = some pushed →
+      Ev s (ppActivate (s.modStream id fun st => { st with pendingSend := rest }) pushed)
   /-- `recv_headers`: the state moves out of `Idle`/`ReservedRemote` and the stream is counted -/
   | incRecv {s : Streams} (k : Nat) (st' : State) (s1 : Streams) : Early (s.stream k) →
       Frame (s.modStream k fun st => { st with state := st' }) s1 → Ev s (s1.incNumRecvStreams k)
